@@ -171,7 +171,7 @@ def histories(n_eps=2, kmax=2, override=True):
 
 
 def hist_name(h):
-    m = {"reset": "R", "step": "s", "step_override": "o", "run": "r", "stop": ".", "reset_carry": "C"}
+    m = {"reset": "R", "step": "s", "step_override": "o", "run": "r", "stop": ".", "reset_carry": "C", "idle": "i", "set_delay": "d"}
     return "".join(m[o[0]] for o in h)
 
 
